@@ -760,6 +760,55 @@ type MRow struct {
 	Tag     int
 }
 
+// callerOwnedDescriptorList: a builder made with ThenWith(list...) from a caller-owned slice keeps its own
+// descriptors when the caller refills that slice for the next builder (and the second builder has its own).
+func callerOwnedDescriptorList() {
+	specs := withDescs(keySpecs())
+	rows := []Row{}
+	for k1 := 0; k1 < 2; k1++ {
+		for k3 := 0; k3 < 2; k3++ {
+			rows = append(rows, Row{K1: fpgo.NewComparableOrdered(k1), K2: fpgo.NewComparableString("a"), K3: k3, Tag: len(rows)})
+		}
+	}
+	for _, n := range []int{1, 2, 3} {
+		for _, spare := range []int{0, 4} {
+			evals++
+			inputs++
+			scratch := make([]fpgo.SortDescriptor[Row], 0, n+spare)
+			for i := 0; i < n; i++ {
+				scratch = append(scratch, specs[[]int{0, 2, 1}[i]].desc(true)) // K1 asc, K3 asc, K2 asc
+			}
+			var b1, b2 fpgo.SortDescriptorsBuilder[Row]
+			var out1, out2 []Row
+			p := lib.Catch(func() {
+				b1 = fpgo.NewSortDescriptorsBuilder[Row]().ThenWith(scratch...)
+				scratch = scratch[:0]
+				for i := 0; i < n; i++ {
+					scratch = append(scratch, specs[[]int{0, 2, 1}[i]].desc(false)) // the same keys, all descending
+				}
+				b2 = fpgo.NewSortDescriptorsBuilder[Row]().ThenWith(scratch...)
+				out1, out2 = b1.ToSortedList(rows...), b2.ToSortedList(rows...)
+			})
+			if p != "" {
+				bad("ThenWith", "panic", "builders from a refilled descriptor slice: %s", p)
+				continue
+			}
+			asc := func(a, c Row) int {
+				if d := a.K1.Val - c.K1.Val; d != 0 || n == 1 {
+					return d
+				}
+				return a.K3 - c.K3
+			}
+			for i := 0; i+1 < len(rows); i++ {
+				if len(out1) != len(rows) || len(out2) != len(rows) || asc(out1[i], out1[i+1]) > 0 || asc(out2[i], out2[i+1]) < 0 {
+					bad("ThenWith", "lexicographic|caller-owned-descriptor-list", "a builder made with ThenWith(list...) (%d ascending descriptors, %d spare slots in the caller's slice), the caller then refills the slice with descending descriptors for a second builder: the first sorts %s to %s, the second to %s", n, spare, renderRows(rows), renderRows(out1), renderRows(out2))
+					break
+				}
+			}
+		}
+	}
+}
+
 func missingKeys(maxLen int) {
 	keyOf := func(k byte) func(x MRow) fpgo.Comparable[interface{}] {
 		return func(x MRow) fpgo.Comparable[interface{}] {
@@ -960,7 +1009,24 @@ func main() {
 		gen(nil, n)
 	}
 	// long lists: alternating runs of two keys (run lengths = all compositions of n into at most R parts)
-	for _, cfg := range []struct{ n, parts int }{{21, 5}, {22, 4}, {65, 3}, {66, 3}, {130, 3}, {257, 2}} {
+	// every length from 5 to 40 (a sort may pick its strategy by length: insertion sort below a cutoff, blocks of
+	// a fixed size above it): all run-compositions into at most 3 parts, and three fixed pseudo-random key patterns
+	for n := 5; n <= 40; n++ {
+		for _, mul := range []int{7, 11, 13} {
+			var in []rec
+			x := n * mul
+			for i := 0; i < n; i++ {
+				x = (x*1103515245 + 12345) & 0x7fffffff
+				in = append(in, rec{K: (x >> 16) % 3, S: "a", Tag: i})
+			}
+			inputs++
+			for _, c := range comparators() {
+				sortAPIs(in, c, true)
+			}
+		}
+	}
+	for _, cfg := range []struct{ n, parts int }{{5, 3}, {6, 3}, {7, 3}, {8, 3}, {9, 3}, {10, 3}, {11, 3}, {12, 3}, {13, 3}, {14, 3}, {15, 3}, {16, 3}, {17, 3}, {18, 3}, {19, 3}, {20, 3},
+		{21, 5}, {22, 4}, {65, 3}, {66, 3}, {130, 3}, {257, 2}} {
 		var comp func(rest, parts int, cur []int)
 		comp = func(rest, parts int, cur []int) {
 			if rest == 0 {
@@ -994,6 +1060,7 @@ func main() {
 	extremeKeys()
 	mixedDynamicTypes()
 	missingKeys(rowLen)
+	callerOwnedDescriptorList()
 	// once more in the same process, after every record type, field name and stack has been sorted once (a
 	// descriptor's meaning must not depend on what was sorted before); the row lists one element shorter
 	skipLongRows = true
